@@ -53,6 +53,8 @@ StringDictionaryRPFC::StringDictionaryRPFC(IteratorDictString *it,
     this->bucketsize = 2;
   } else
     this->bucketsize = bucketsize;
+  // The parameter hides the member below: both must hold the value in use
+  bucketsize = this->bucketsize;
 
   // 1) Bulding the Front-Coding representation
   StringDictionaryPFC *dict = new StringDictionaryPFC(it, this->bucketsize);
